@@ -45,16 +45,26 @@ def suite(cwd):
     stable set fails, or a package (other than netstate, whose integration test cannot run here)
     fails as a whole (panic, time-out)"""
     r = sh(["go", "test", "-vet=off", "-count=1", "-json", "-timeout", "60s"] + PKGS, cwd)
-    bad = []
+    bad, failed_tests, failed_pkgs, crashed = [], {}, set(), set()
     for l in r.stdout.split("\n"):
         try:
             e = json.loads(l)
         except Exception:
             continue
-        if e.get("Action") == "fail" and e.get("Test") and (e["Package"] + "::" + e["Test"]) in STABLE:
-            bad.append(e["Package"].split("/")[-1] + "::" + e["Test"])
-        if e.get("Action") == "fail" and not e.get("Test") and "netstate" not in e.get("Package", ""):
-            bad.append("PKG " + e.get("Package", ""))
+        pkg = e.get("Package", "")
+        if e.get("Action") == "output" and ("panic: " in e.get("Output", "") or "test timed out" in e.get("Output", "")):
+            crashed.add(pkg)
+        if e.get("Action") == "fail" and e.get("Test"):
+            failed_tests.setdefault(pkg, []).append(e["Test"])
+            if (pkg + "::" + e["Test"]) in STABLE:
+                bad.append(pkg.split("/")[-1] + "::" + e["Test"])
+        if e.get("Action") == "fail" and not e.get("Test"):
+            failed_pkgs.add(pkg)
+    for pkg in failed_pkgs:
+        # a package that fails as a whole counts only when it crashed or timed out (a failing
+        # unstable test of the pinned baseline also fails its package)
+        if "netstate" not in pkg and (pkg in crashed or not failed_tests.get(pkg)):
+            bad.append("PKG " + pkg)
     if "[build failed]" in r.stdout:
         bad.append("BUILD")
     return sorted(set(bad))
